@@ -718,3 +718,18 @@ Proof.
   split; [repeat (constructor; [discriminate|]); constructor|].
   vm_compute. split; reflexivity.
 Qed.
+
+(* Model-level record of the KNOWN FINDING answer-intermediate-underflow-below-double-range: the exact median of
+   [5e-324, -4, 0, 1] is 2.47e-324, non-zero; the unchanged generation has relative change 0 < 3/4, so the documented
+   decision is "terminate" at the second evaluation.  In double precision (0.0 + 5e-324)/2 = 0.0, the implementation
+   takes the zero-reference branch and answers False. *)
+Definition underflow_witness : list evaluation := [mk_ev ((-4)%Z # 1%positive) [Some ((1)%Z # 202402253307310618352495346718917307049556649764142118356901358027430339567995346891960383701437124495187077864316811911389808737385793476867013399940738509921517424276566361364466907742093216341239767678472745068562007483424692698618103355649159556340810056512358769552333414615230502532186327508646006263307707741093494784%positive); Some ((-4)%Z # 1%positive); Some ((0)%Z # 1%positive); Some ((1)%Z # 1%positive)]; mk_ev ((-4)%Z # 1%positive) [Some ((1)%Z # 202402253307310618352495346718917307049556649764142118356901358027430339567995346891960383701437124495187077864316811911389808737385793476867013399940738509921517424276566361364466907742093216341239767678472745068562007483424692698618103355649159556340810056512358769552333414615230502532186327508646006263307707741093494784%positive); Some ((-4)%Z # 1%positive); Some ((0)%Z # 1%positive); Some ((1)%Z # 1%positive)]].
+Example poprel_exact_answer_on_underflow_witness :
+  Forall nonempty underflow_witness
+  /\ run (pr_step repaired (3 # 4) 0) (pop_init repaired (3 # 4) 0) underflow_witness = [Ok false; Ok true]
+  /\ (exists m, median (somes (values (mk_ev (-(4)) [Some ((1)%Z # 202402253307310618352495346718917307049556649764142118356901358027430339567995346891960383701437124495187077864316811911389808737385793476867013399940738509921517424276566361364466907742093216341239767678472745068562007483424692698618103355649159556340810056512358769552333414615230502532186327508646006263307707741093494784%positive); Some (-(4)); Some 0; Some 1]))) = Ok m /\ ~ m == 0).
+Proof.
+  split; [repeat (constructor; [discriminate|]); constructor|].
+  split; [vm_compute; reflexivity|].
+  eexists. split; [vm_compute; reflexivity|]. intros H. vm_compute in H. discriminate.
+Qed.
